@@ -212,7 +212,7 @@ class Body:
         return seen
 
     # ---- variant-sensitive walk (used for bodies that contain inlined code) ----------------------------------
-    _VIDX = {'None': 0, 'Some': 1, 'Ok': 0, 'Err': 1, 'Continue': 0, 'Break': 1}
+    _VIDX = {'None': 0, 'Some': 1, 'Ok': 0, 'Err': 1, 'Continue': 0, 'Break': 1, 'Less': -1, 'Equal': 0, 'Greater': 1}
 
     def precise_walk(self, start, stops=frozenset(), include_start=False, skip_edges=frozenset()):
         """positions reached from `start`; positions in `stops` are reached but not expanded; branches that contradict what is known
@@ -227,7 +227,7 @@ class Body:
             if d['p']:
                 return frozenset((k, v) for k, v in facts if k != l) if any(k == l for k, v in facts) else facts
             new = None
-            if rv['k'] == 'agg' and rv.get('var') in self._VIDX and rv.get('adt') in ('Result', 'Option', 'ControlFlow'):
+            if rv['k'] == 'agg' and rv.get('var') in self._VIDX and rv.get('adt') in ('Result', 'Option', 'ControlFlow', 'Ordering'):
                 new = rv['var']
             elif rv['k'] == 'use':
                 o = rv['o']
@@ -285,7 +285,8 @@ class Body:
             if t['k'] == 'switch' and 'l' in t['d'] and not t['d']['p']:
                 v = dict(facts).get(t['d']['l'])
                 if v is not None and v.startswith('#'):
-                    tgt = dict(t['ts']).get(v[1:], t['else'])
+                    tsd = dict(t['ts'])
+                    tgt = tsd.get(v[1:], tsd.get('255', t['else']) if v == '#-1' else t['else'])
                     succs = [x for x in succs if x == tgt]
             elif t['k'] == 'call':
                 dl = t['dst']['l']
